@@ -75,8 +75,14 @@ end QTime
 /-- `round(t * rate)`: the sample index addressed by time `t` -/
 def sampleAtTime (t : QTime) (rate : Nat) : Int := roundHalfEven (t.num * rate) t.den
 
-/-- `Wav._getIndexAtTime`: `round(startTime * self.frameRate) * self.sampleWidth` -/
-def indexAtTime (t : QTime) (rate width : Nat) : Int := sampleAtTime t rate * width
+/-- `min(max(i, 0), n)`: a sample index clamped into `[0, n]` -/
+def clampSample (i : Int) (n : Nat) : Nat := min i.toNat n
+
+/-- `Wav._getIndexAtTime` (as repaired, commit 300c9d2):
+`sampleIndex = round(startTime * self.frameRate); numSamples = len(self.frames) // self.sampleWidth;
+min(max(sampleIndex, 0), numSamples) * self.sampleWidth` -/
+def indexAtTime (t : QTime) (rate width nsamples : Nat) : Int :=
+  ((clampSample (sampleAtTime t rate) nsamples * width : Nat) : Int)
 
 /-! ## Python slicing of a sequence -/
 
@@ -166,7 +172,11 @@ structure Wav where
 deriving DecidableEq, Repr
 
 namespace Wav
-def index (wv : Wav) (t : QTime) : Int := indexAtTime t wv.rate wv.width
+/-- number of whole samples: `len(self.frames) // self.sampleWidth` -/
+def nsamples (wv : Wav) : Nat := wv.frames.length / wv.width
+/-- the sample boundary addressed by time `t`: nearest to `t * rate`, inside the recording -/
+def sampleIndex (wv : Wav) (t : QTime) : Nat := clampSample (sampleAtTime t wv.rate) wv.nsamples
+def index (wv : Wav) (t : QTime) : Int := indexAtTime t wv.rate wv.width wv.nsamples
 
 def getFrames (wv : Wav) (s e : QTime) : List UInt8 := getB wv.frames (wv.index s) (wv.index e)
 def getSamples (wv : Wav) (s e : QTime) : Except AErr (List Int) :=
@@ -182,8 +192,6 @@ def getSubwav (wv : Wav) (s e : QTime) : Wav := { wv with frames := wv.getFrames
 def concatenate (wv : Wav) (g : List UInt8) : Wav := { wv with frames := wv.frames ++ g }
 /-- `len(self.frames) / self.frameRate / self.sampleWidth` as a rational -/
 def duration (wv : Wav) : QTime := ⟨wv.frames.length, wv.rate * wv.width⟩
-/-- number of whole samples -/
-def nsamples (wv : Wav) : Nat := wv.frames.length / wv.width
 /-- all samples (`convertFromBytes(self.frames, self.sampleWidth)` when the length is whole) -/
 def samples (wv : Wav) : List Int := unpack wv.width wv.frames
 /-- duration of a stretch of frames at this wav's parameters: `len(g) / width / rate` -/
@@ -239,12 +247,12 @@ def readAt (f : WavFile) (pos n : Int) : Except AErr (List UInt8) :=
 def duration (f : WavFile) : QTime := ⟨f.nframes, f.rate⟩
 end WavFile
 
-/-- `readFramesAtTime(audiofile, startTime, endTime)` (as repaired, commit fedc16f):
-`startFrame = round(frameRate * startTime); endFrame = round(frameRate * endTime);
-setpos(startFrame); readframes(max(endFrame - startFrame, 0))` -/
+/-- `readFramesAtTime(audiofile, startTime, endTime)` (as repaired, commits fedc16f, 300c9d2):
+`startFrame = min(max(round(frameRate * startTime), 0), nframes)`, `endFrame` likewise;
+`setpos(startFrame); readframes(max(endFrame - startFrame, 0))` -/
 def readFramesAtTime (f : WavFile) (s e : QTime) : Except AErr (List UInt8) :=
-  let a := roundHalfEven ((f.rate : Int) * s.num) s.den
-  let b := roundHalfEven ((f.rate : Int) * e.num) e.den
+  let a : Int := (clampSample (roundHalfEven ((f.rate : Int) * s.num) s.den) f.nframes : Nat)
+  let b : Int := (clampSample (roundHalfEven ((f.rate : Int) * e.num) e.den) f.nframes : Nat)
   f.readAt a (max (b - a) 0)
 
 /-- `Wav.save`: `wave.open(fn, "w")`, `setparams` (width must be 1..4, rate positive),
